@@ -183,9 +183,32 @@ def attr_snapshot(a):
     return out
 
 
-def make_transformer(tr, rec):
+def _rebuild(a, style, ns):
+    """the way a user transformer may produce its result: through evolve() / Attribute(...) with containers it keeps
+    (and mutates later); the field it describes is the same"""
+    if style == "plain":
+        return a
+    kept = dict(a.metadata) or {"t": 1}
+
+    def mutate(kept=kept):
+        kept["d"] = 999
+        kept["extra"] = 1
+    ns["_user"]["mutators"].append(mutate)
+    if style == "evolve_md":
+        return a.evolve(metadata=kept)
+    if style == "evolve_md_proxy":
+        return a.evolve(metadata=types.MappingProxyType(kept))
+    return attr.Attribute(
+        name=a.name, default=a.default, validator=a.validator, repr=a.repr, cmp=None, hash=a.hash, init=a.init,
+        inherited=a.inherited, metadata=kept if style == "ctor" else UserMapping(kept), type=a.type,
+        converter=a.converter, kw_only=a.kw_only, eq=a.eq, eq_key=a.eq_key, order=a.order, order_key=a.order_key,
+        on_setattr=a.on_setattr, alias=a.alias)
+
+
+def make_transformer(tr, rec, ns=None, pc=None):
     if tr == "none":
         return None
+    style = (pc or {}).get("tr_style", "plain")
 
     def transformer(cls, fields):
         rec["received"] = [field_obs(a) for a in fields]
@@ -206,6 +229,8 @@ def make_transformer(tr, rec):
             out = [*fields, new]
         else:
             raise AssertionError(tr)
+        if style != "plain" and ns is not None:
+            out = [_rebuild(a, style, ns) for a in out]
         rec["returned"] = [field_obs(a) for a in out]
         return out
 
@@ -279,7 +304,7 @@ def _class_source(k, c, pc, base_names, ns, rec, name=None):
         dk["these"] = these_var
     if c["kwOnly"]:
         dk["kw_only"] = "True"
-    tr = make_transformer(c["tr"], rec)
+    tr = make_transformer(c["tr"], rec, ns, pc)
     if tr is not None:
         ns[f"_tr_{uid}"] = tr
         dk["field_transformer"] = f"_tr_{uid}"
@@ -304,7 +329,7 @@ def _class_source(k, c, pc, base_names, ns, rec, name=None):
             dk["frozen"] = "True"
         if pc.get("lean", True):
             dk.update(repr="False", eq="False")
-        deco = "attrs.define"
+        deco = "attrs.mutable" if pc.get("define_api") == "mutable" else "attrs.define"
     args = ", ".join(f"{a}={b}" for a, b in dk.items())
     if via.startswith("make_class") and c["kind"] == "attrS" and c["these"] is not None and not c["items"]:
         rest = {a: b for a, b in dk.items() if a != "these"}
@@ -337,6 +362,15 @@ def _class_source(k, c, pc, base_names, ns, rec, name=None):
         # the attr.ib() objects / the these= dict were already used by another (dict) class
         lines += [f"class _Donor_{uid}:", *body, "try:", f"    {deco_call({'slots': 'False'})}(_Donor_{uid})",
                   "except Exception:", "    pass"]
+    if history.startswith("reused"):
+        # ONE decorator object, applied first to a class with another kind of body, then to the class under test
+        prime = {"reused_mixed": [f"    a: int = 1", f"    b = {fn}()"],
+                 "reused_unannotated": [f"    a = {fn}()"],
+                 "reused_annotated": ["    a: int = 1", "    b: int = 2"],
+                 "reused_empty": ["    pass"]}[history]
+        lines += [f"_d_{uid} = {deco}({args})", f"class _Prime_{uid}:", *prime, "try:", f"    _d_{uid}(_Prime_{uid})",
+                  "except Exception:", "    pass", f"class {name}({bases}):", *body, f"{name} = _d_{uid}({name})"]
+        return "\n".join(lines), None
     lines += [f"class {name}({bases}):", *body, f"{h} = {name}"]
     if history.startswith("failed"):
         poison = {
